@@ -263,6 +263,294 @@ pub fn c04_eval(bytes: &[u8], uni: &'static str, acc: &mut Acc) {
     }
 }
 
+
+// ---- release differential and memcheck: the same inputs in the build users ship (no debug assertions, wrapping
+// arithmetic: profile `mcrel`) must give the same observable outcomes as in the checked build, and run clean under
+// valgrind's memcheck (out-of-bounds reads that neither panic nor crash)
+
+/// every observable outcome of one input, as text
+pub fn outcomes(bytes: &[u8]) -> String {
+    use std::fmt::Write as _;
+    let mut o = String::new();
+    let r = guarded(|| {
+        let mut o = String::new();
+        match toml_edit::de::from_slice::<toml::Value>(bytes) {
+            Ok(v) => {
+                let _ = write!(o, "slice:OK:{}|", v);
+            }
+            Err(e) => {
+                let _ = write!(o, "slice:ERR:{}:{:?}|", e.message(), e.span());
+            }
+        }
+        let Ok(text) = std::str::from_utf8(bytes) else { return o };
+        match text.parse::<toml_edit::DocumentMut>() {
+            Ok(d) => {
+                let _ = write!(o, "doc:OK:{}:{:?}|", d, d);
+            }
+            Err(e) => {
+                let _ = write!(o, "doc:ERR:{}:{:?}:{}|", e.message(), e.span(), e);
+            }
+        }
+        match toml::from_str::<toml::Table>(text) {
+            Ok(t) => {
+                let _ = write!(o, "table:OK:{}:{:?}|", t, t);
+            }
+            Err(e) => {
+                let _ = write!(o, "table:ERR:{}:{:?}|", e.message(), e.span());
+            }
+        }
+        match text.parse::<toml_edit::Value>() {
+            Ok(v) => {
+                let _ = write!(o, "value:OK:{}:{:?}|", v, v);
+            }
+            Err(e) => {
+                let _ = write!(o, "value:ERR:{}:{:?}|", e.message(), e.span());
+            }
+        }
+        match text.parse::<toml_edit::Key>() {
+            Ok(k) => {
+                let _ = write!(o, "key:OK:{}:{:?}|", k, k.get());
+            }
+            Err(e) => {
+                let _ = write!(o, "key:ERR:{}:{:?}|", e.message(), e.span());
+            }
+        }
+        match toml_edit::Key::parse(text) {
+            Ok(ks) => {
+                let _ = write!(o, "keys:OK:{:?}|", ks.iter().map(|k| k.get().to_string()).collect::<Vec<_>>());
+            }
+            Err(e) => {
+                let _ = write!(o, "keys:ERR:{}:{:?}|", e.message(), e.span());
+            }
+        }
+        match text.parse::<toml_datetime::Datetime>() {
+            Ok(d) => {
+                let _ = write!(o, "dt:OK:{}|", d);
+            }
+            Err(e) => {
+                let _ = write!(o, "dt:ERR:{}|", e);
+            }
+        }
+        o
+    });
+    match r {
+        Ok(x) => o.push_str(&x),
+        Err(p) => {
+            let _ = write!(o, "PANIC:{}", p.lines().next().unwrap_or(""));
+        }
+    }
+    o
+}
+
+const DIFF_UNIVERSES: [&str; 11] = ["byte", "tok-small", "ctx", "esc", "num", "edge", "dt", "raw", "utf8", "vtok", "stmt-small"];
+static DIFF_SUM: AtomicU64 = AtomicU64::new(0);
+static DIFF_DUMP: Mutex<Option<std::fs::File>> = Mutex::new(None);
+
+fn diff_eval(bytes: &[u8], _uni: &'static str, acc: &mut Acc) {
+    let o = outcomes(bytes);
+    let mut h = hash64(bytes);
+    h = h.rotate_left(17) ^ hash64(o.as_bytes());
+    // order-independent: the enumeration is parallel
+    DIFF_SUM.fetch_add(h.wrapping_mul(0x9E3779B97F4A7C15) | 1, Ordering::Relaxed);
+    if let Some(f) = DIFF_DUMP.lock().unwrap().as_mut() {
+        let hex: String = bytes.iter().map(|b| format!("{:02x}", b)).collect();
+        let _ = writeln!(f, "{} {:016x} {}", hex, hash64(o.as_bytes()), o.replace('\n', "\\n").chars().take(400).collect::<String>());
+    }
+    acc.bump("outcome-recorded");
+}
+
+/// child: `mc C04-digest-worker <tier> [dump <universe> <file>]`
+pub fn digest_worker(tier: Tier, dump: Option<(String, String)>) -> i32 {
+    std::panic::set_hook(Box::new(|_| {}));
+    for u in DIFF_UNIVERSES {
+        if let Some((du, file)) = &dump {
+            if du != u {
+                continue;
+            }
+            *DIFF_DUMP.lock().unwrap() = Some(std::fs::File::create(file).expect("dump file"));
+        }
+        DIFF_SUM.store(0, Ordering::Relaxed);
+        println!("BEGIN {}", u);
+        let _ = std::io::stdout().flush();
+        let mut rep = Report::new("C04", tier, "exploration", "worker");
+        docu::run(&mut rep, tier, &[u], &diff_eval);
+        let n: u64 = rep.universes.iter().map(|x| x.size).sum();
+        println!("SUM {} {} {:016x}", u, n, DIFF_SUM.load(Ordering::Relaxed));
+    }
+    0
+}
+
+fn run_digest(exe: &std::path::Path, tier: Tier, dump: Option<(&str, &str)>) -> Result<Vec<(String, u64, String)>, String> {
+    let mut cmd = std::process::Command::new(exe);
+    cmd.args(["C04-digest-worker", tier.name()]);
+    if let Some((u, f)) = dump {
+        cmd.args(["dump", u, f]);
+    }
+    let out = cmd.output().map_err(|e| format!("cannot run {}: {}", exe.display(), e))?;
+    let mut v = Vec::new();
+    if !out.status.success() {
+        // the worker guards every library call against panics: dying anyway (signal, abort, stack exhaustion) is a
+        // result of that build, reported as such by the caller
+        let so = String::from_utf8_lossy(&out.stdout);
+        let at = so.lines().filter_map(|l| l.strip_prefix("BEGIN ")).last().unwrap_or("?").to_string();
+        v.push((format!("DIED in universe {} with {:?}", at, out.status), 0, String::new()));
+        return Ok(v);
+    }
+    for l in String::from_utf8_lossy(&out.stdout).lines() {
+        if let Some(r) = l.strip_prefix("SUM ") {
+            let p: Vec<&str> = r.split(' ').collect();
+            if p.len() == 3 {
+                v.push((p[0].to_string(), p[1].parse().unwrap_or(0), p[2].to_string()));
+            }
+        }
+    }
+    Ok(v)
+}
+
+fn release_differential(rep: &mut Report, tier: Tier, exe: &std::path::Path, rel: &std::path::Path) -> Result<(), String> {
+    let t0 = Instant::now();
+    let a = run_digest(exe, tier, None)?;
+    let b = run_digest(rel, tier, None)?;
+    for (which, r) in [("checked", &a), ("release (no debug assertions)", &b)] {
+        if let Some(d) = r.iter().find(|x| x.0.starts_with("DIED")) {
+            let mut acc = Acc::default();
+            acc.evals = 1;
+            acc.nontrivial(d.0.as_bytes());
+            acc.sample(|| d.0.clone());
+            acc.viol("U-release", format!("{} build: worker process {}", which, d.0), None, format!("the {} build of the library crashed the worker process (every call is guarded against panics, so this is a signal / abort): {}", which, d.0));
+            rep.absorb("U-release", "universes re-run in the build users ship", 1, true, t0, acc);
+            return Ok(());
+        }
+    }
+    if a.len() != DIFF_UNIVERSES.len() || b.len() != a.len() {
+        return Err(format!("digest workers reported {} / {} universes instead of {}", a.len(), b.len(), DIFF_UNIVERSES.len()));
+    }
+    let mut acc = Acc::default();
+    let mut total = 0u64;
+    for (x, y) in a.iter().zip(b.iter()) {
+        total += x.1;
+        acc.evals += x.1;
+        acc.nontrivial_overflow += x.1;
+        if x.1 != y.1 {
+            return Err(format!("universe {} has {} cases in one build and {} in the other", x.0, x.1, y.1));
+        }
+        if x.2 == y.2 {
+            acc.bump("universe-digests-agree");
+            acc.sample(|| format!("{}: {} cases, digest {} in both builds", x.0, x.1, x.2));
+            continue;
+        }
+        // locate the differing inputs
+        let dir = format!("{}/mc/target/diff", verif_dir());
+        let _ = std::fs::create_dir_all(&dir);
+        let (fa, fb) = (format!("{}/{}.checked", dir, x.0), format!("{}/{}.release", dir, x.0));
+        run_digest(exe, tier, Some((&x.0, &fa)))?;
+        run_digest(rel, tier, Some((&x.0, &fb)))?;
+        let load = |f: &str| -> std::collections::BTreeMap<String, String> {
+            std::fs::read_to_string(f).unwrap_or_default().lines().filter_map(|l| l.split_once(' ').map(|(k, v)| (k.to_string(), v.to_string()))).collect()
+        };
+        let (ma, mb) = (load(&fa), load(&fb));
+        let mut shown = 0;
+        for (k, va) in &ma {
+            let vb = mb.get(k).cloned().unwrap_or_default();
+            if *va != vb {
+                let bytes: Vec<u8> = (0..k.len() / 2).filter_map(|i| u8::from_str_radix(&k[2 * i..2 * i + 2], 16).ok()).collect();
+                acc.viol("U-release", crate::c_docs::show(&bytes), None, format!("the build without debug assertions / overflow checks behaves differently from the checked build: checked = {} ; release = {}", va.chars().take(300).collect::<String>(), vb.chars().take(300).collect::<String>()));
+                shown += 1;
+                if shown >= 50 {
+                    break;
+                }
+            }
+        }
+        if shown == 0 {
+            acc.viol("U-release", format!("universe {}", x.0), None, "digests differ between the checked and the release build but no single differing input was located".into());
+        }
+        let _ = std::fs::remove_file(&fa);
+        let _ = std::fs::remove_file(&fb);
+    }
+    rep.absorb("U-release", &format!("{} universes re-run in the build users ship (profile mcrel: no debug assertions, no overflow checks); outcomes (verdict, printed text, Debug text, error message and span of 7 entry points) compared with the checked build", DIFF_UNIVERSES.len()), total, true, t0, acc);
+    Ok(())
+}
+
+const MEM_VALUES: [u8; 13] = [0u8, 0x0a, 0x0d, 0x22, 0x27, 0x5c, 0x7f, 0x80, 0xbf, 0xc3, 0xe2, 0xf0, 0xff];
+
+/// child: `mc C04-mem-worker <tier> <shard> <nshards>` - single-threaded, meant to run under valgrind
+pub fn mem_worker(tier: Tier, shard: usize, nshards: usize) -> i32 {
+    let values: Vec<u8> = match tier {
+        Tier::Quick => MEM_VALUES.to_vec(),
+        Tier::Thorough => (0..=255u8).collect(),
+    };
+    std::panic::set_hook(Box::new(|_| {}));
+    let mut n = 0usize;
+    let mut i = 0usize;
+    for f in docu::BYTE_FRAMES {
+        let fb = f.as_bytes();
+        for pos in 0..=fb.len() {
+            for &v in &values {
+                i += 1;
+                if i % nshards != shard {
+                    continue;
+                }
+                let mut c = fb[..pos].to_vec();
+                c.push(v);
+                c.extend_from_slice(&fb[pos..]);
+                n += guarded(|| exercise(&c)).unwrap_or(0);
+                if pos < fb.len() {
+                    let mut c = fb.to_vec();
+                    c[pos] = v;
+                    n += guarded(|| exercise(&c)).unwrap_or(0);
+                }
+            }
+            i += 1;
+            if i % nshards == shard {
+                n += guarded(|| exercise(&fb[..pos])).unwrap_or(0);
+            }
+        }
+    }
+    println!("MEM-DONE {}", n);
+    0
+}
+
+fn memcheck(rep: &mut Report, tier: Tier, rel: &std::path::Path) -> Result<(), String> {
+    let nvalues = tier.pick(MEM_VALUES.len() as u64, 256);
+    let t0 = Instant::now();
+    let nshards = 16usize;
+    use rayon::prelude::*;
+    let results: Vec<Result<(i32, String), String>> = (0..nshards)
+        .into_par_iter()
+        .map(|sh| {
+            let out = std::process::Command::new("valgrind")
+                .args(["--quiet", "--error-exitcode=9", "--errors-for-leak-kinds=none", "--leak-check=no"])
+                .arg(rel)
+                .args(["C04-mem-worker", tier.name(), &sh.to_string(), &nshards.to_string()])
+                .output()
+                .map_err(|e| format!("cannot run valgrind: {}", e))?;
+            let so = String::from_utf8_lossy(&out.stdout).to_string();
+            let se = String::from_utf8_lossy(&out.stderr).to_string();
+            Ok((out.status.code().unwrap_or(-1), format!("{}\n{}", so, se)))
+        })
+        .collect();
+    let mut acc = Acc::default();
+    let mut cases = 0u64;
+    for f in docu::BYTE_FRAMES {
+        cases += (f.len() as u64 + 1) * nvalues * 2 + f.len() as u64 + 1;
+    }
+    acc.evals = cases;
+    acc.nontrivial_overflow = cases;
+    for (sh, r) in results.into_iter().enumerate() {
+        let (code, log) = r?;
+        if code == 0 && log.contains("MEM-DONE") {
+            acc.bump("memcheck-shard-clean");
+            acc.sample(|| format!("shard {}: {}", sh, log.lines().find(|l| l.starts_with("MEM-DONE")).unwrap_or("")));
+        } else if code == 9 || log.contains("Invalid read") || log.contains("Invalid write") || log.contains("uninitialised") {
+            acc.viol("U-memcheck", format!("memcheck shard {} of {}", sh, nshards), None, format!("valgrind reports a memory error in the release build: {}", log.lines().filter(|l| l.starts_with("==")).take(14).collect::<Vec<_>>().join(" / ")));
+        } else {
+            return Err(format!("memcheck shard {} ended with code {} without a verdict: {}", sh, code, log.lines().rev().take(3).collect::<Vec<_>>().join(" | ")));
+        }
+    }
+    rep.absorb("U-memcheck", &format!("40 seed frames x every position x {} byte values (insert, substitute) + truncations, all 12 entry points, single-threaded under valgrind memcheck in the release build (16 shards)", nvalues), cases, true, t0, acc);
+    Ok(())
+}
+
 // ---- growth family, each shard in a sacrificial worker process
 
 const GROWTH_FRAMES: [(&str, &str); 8] = [("", ""), ("k=", "\n"), ("k=[", "]"), ("k={a=", "}"), ("[", "]"), ("k=\"\"\"", "\"\"\""), ("k='''", "'''"), ("k=\"", "\"")];
@@ -416,11 +704,31 @@ pub fn c04(tier: Tier) -> i32 {
     );
     rep.assumptions = vec![
         "the property quantifies over all inputs; what is decided is its bounded instance over the listed universes plus a growth family up to 16-70 KiB".into(),
-        "out-of-bounds reads that neither panic nor crash would need a memory checker; the checked from_utf8 branch and slice indexing turn the reachable ones into panics in this build".into(),
+        "the main enumeration runs in a build with debug assertions and overflow checks (the checked from_utf8 branch, slice indexing and arithmetic turn the reachable faults into panics); the build users ship is covered by the release differential (same outcomes) and, in the thorough tier, by valgrind memcheck over the byte-substitution universe".into(),
     ];
     start_watchdog("C04");
-    docu::run(&mut rep, tier, &["byte", "tok", "ctx", "esc", "num", "edge", "dt", "raw", "corpus", "decor", "stmt-small", "cp", "utf8", "vtok"], &c04_eval);
+    docu::run(&mut rep, tier, &["byte", "tok-wide", "ctx", "esc", "num", "edge", "dt", "raw", "corpus", "decor", "stmt-small", "cp", "utf8", "vtok"], &c04_eval);
     if let Err(e) = growth(&mut rep, tier) {
+        println!("MACHINERY-ERROR {}", e);
+        return 2;
+    }
+    let exe = match std::env::current_exe() {
+        Ok(e) => e,
+        Err(e) => {
+            println!("MACHINERY-ERROR {}", e);
+            return 2;
+        }
+    };
+    let rel = std::path::PathBuf::from(exe.to_string_lossy().replace("/target/mc/", "/target/mcrel/"));
+    if !rel.exists() {
+        println!("MACHINERY-ERROR release build {} is missing (run.sh builds it for C04)", rel.display());
+        return 2;
+    }
+    if let Err(e) = release_differential(&mut rep, tier, &exe, &rel) {
+        println!("MACHINERY-ERROR {}", e);
+        return 2;
+    }
+    if let Err(e) = memcheck(&mut rep, tier, &rel) {
         println!("MACHINERY-ERROR {}", e);
         return 2;
     }
